@@ -15,5 +15,5 @@ for id in $ids; do
   echo "$id: caught_by=$caught"
   [ "$caught" = no ] && rc=1
 done
-rm -f replays/*.json
+rm -rf replays/mut
 exit $rc
